@@ -22,6 +22,14 @@ class Live(object):
         u = b.ircdb.users.newUser(); u.name = 'boss'; u.addCapability('owner'); u.addHostmask('boss!b@h')
         b.ircdb.users.setUser(u)
         self.sched = b.schedule.schedule
+        # what a periodic wrapper is for is recorded when it is made (not read out of its closure)
+        self.wrappers = {}
+        real_mk = self.sched.makePeriodicWrapper
+        def makePeriodicWrapper(f, t, name=None, *a, **k):
+            w = real_mk(f, t, name, *a, **k)
+            self.wrappers[id(w)] = (w, f, t, name)
+            return w
+        self.sched.makePeriodicWrapper = makePeriodicWrapper
         self.pickle = b.conf.supybot.directories.data.dirize('Scheduler.pickle')
         b.irc.feedMsg(b.ircmsgs.IrcMsg(':server 001 test :Welcome'))
         self.drain()
@@ -157,15 +165,19 @@ class PlugImpl(object):
         tag = getattr(f, '_vt_tag', None)
         if tag is not None:
             return 'f%d' % tag
+        w = self.L.wrappers.get(id(f))
+        if w is not None:                               # periodic wrapper
+            _, inner, t, name = w
+            try:
+                ic = dict(zip(inner.__code__.co_freevars, [c.cell_contents for c in inner.__closure__]))
+                g = self.gen.get(id(ic['self']), (0,))[0]
+                return 'r%d/%s/%d/%d' % (g, wire.enc(name), int(t), cmd_of(ic['command']))
+            except Exception:
+                return '?'
         try:
             cells = dict(zip(f.__code__.co_freevars, [c.cell_contents for c in f.__closure__]))
         except Exception:
             return '?'
-        if 'count' in cells and 't' in cells:          # periodic wrapper
-            inner = cells['f']
-            ic = dict(zip(inner.__code__.co_freevars, [c.cell_contents for c in inner.__closure__]))
-            g = self.gen.get(id(ic['self']), (0,))[0]
-            return 'r%d/%s/%d/%d' % (g, wire.enc(cells['name']), int(cells['t']), cmd_of(ic['command']))
         g = self.gen.get(id(cells.get('self')), (0,))[0]
         text = cells.get('command', cells.get('text', ''))
         eid = getattr(f, 'eventId', -1)
@@ -261,9 +273,23 @@ class PlugImpl(object):
                 self.tags.add('p-remind' if remind else 'p-add')
         elif k == 'premove':
             key = op[1]
+            target = int(key) if is_id(key) else key           # the name the event is scheduled under
+            before = set(x[1] for x in L.sched.schedule)
             r = L.say('scheduler remove %s' % key)
             reply = classify(r)
+            after = set(x[1] for x in L.sched.schedule)
             c = self.byid.get(key)
+            gone = before - after
+            if gone - set([target]):
+                self.fail('"scheduler remove %s" took %s out of the schedule: not the event that was named'
+                          % (key, ', '.join(sorted(map(repr, gone - set([target]))))))
+            if reply == 'ok' and target in after:
+                self.fail('"scheduler remove %s" answered success but the event %r is still scheduled' % (key, target))
+            if reply == 'invalid' and loaded and c is not None and target in before:
+                o_ = self.oneshot.get(c) or self.repeat.get(c)
+                if o_ is not None and o_['removed'] is None and o_['key'] == key:
+                    self.fail('"scheduler remove %s" answered "Invalid event id" although that event is scheduled: '
+                              'it cannot be removed and keeps running' % key)
             if reply == 'ok' and c is not None:
                 o = self.oneshot.get(c) or self.repeat.get(c)
                 if o is not None and o['removed'] is None and not (c in self.oneshot and o['fired']):
@@ -284,7 +310,7 @@ class PlugImpl(object):
             reply = classify(r)
             if reply != 'notloaded':
                 keys = list_keys(r)
-                reply = 'list:' + (','.join(sorted(('I' + x) if x.isdigit() else 'S' + wire.enc(x) for x in keys)) or '-')
+                reply = 'list:' + (','.join(sorted(('I' + x) if is_id(x) else 'S' + wire.enc(x) for x in keys)) or '-')
                 self.tags.add('p-list-%d' % min(len(keys), 2))
         elif k == 'pflush':
             cb = L.plugin()
@@ -346,7 +372,7 @@ def model_line(op, picks=None):
     k = op[0]
     if k == 'pnew': return 'pnew\t%d' % op[1]
     if k == 'padd': return 'padd\t%d\t%d' % (op[1], op[2])
-    if k == 'premove': return 'premove\t%s' % (('I' + op[1]) if op[1].isdigit() else 'S' + wire.enc(op[1]))
+    if k == 'premove': return 'premove\t%s' % (('I' + op[1]) if is_id(op[1]) else 'S' + wire.enc(op[1]))
     if k == 'prepeat': return 'prepeat\t%s\t%d\t%d\t%d' % (wire.enc(op[1]), op[2], op[3], op[4])
     if k == 'pforeign': return 'pforeign\t%d\t%d' % (op[1], op[2])
     if k == 'ptick': return 'ptick\t%d' % op[1]
@@ -364,7 +390,13 @@ def canon_model(line):
     f[3] = ';'.join(sorted(f[3].split(';'))) if f[3] != '-' else '-'
     return '\t'.join(f)
 
-NAMES = ['ra', 'rb', 'rc']
+# names of repeating events: anything nonInt accepts — a leading '#' (next to the same name without it), digits that
+# int() reads but supybot's integer syntax does not ('08')
+NAMES = ['ra', 'rb', '#ra', '08', '#rb']
+
+def is_id(k):
+    """the key of a one-shot event: the decimal of its integer id"""
+    return k.isdigit() and k == str(int(k))
 
 def gen_ops(r, maxlen=30):
     ops = [['pnew', 1000 + r.randint(0, 20)]]
@@ -384,7 +416,7 @@ def gen_ops(r, maxlen=30):
             c += 1
             ops.append(['padd', r.choice([1, 2, 5, 10, 10, 20, 40]), c, r.random() < 0.25])
         elif x < 0.32:
-            ops.append(['premove', r.choice([str(r.randint(0, max(1, c))), r.choice(NAMES)])])
+            ops.append(['premove', r.choice([str(r.randint(0, max(1, c))), r.choice(NAMES), r.choice(NAMES), '0%d' % r.randint(0, 9)])])
         elif x < 0.40:
             c += 1
             ops.append(['prepeat', r.choice(NAMES), r.choice([3, 5, 7, 12, 30]), c, r.choice([0, 0, 4, 15])])
